@@ -2,118 +2,119 @@
   Irc.InvProofs.RegistrationLemmas — helper lemmas for Irc.InvProofs.Registration:
   list-level facts about `Map.insert` / `Map.erase`, replacing a connection record
   (`World.setConn`), re-keying one entry of a map, `Channel.renameUser`, `renameInChannels`.
+  Everything lives in `namespace Irc.Reg` (other proof files have helpers of the same names).
 -/
 import Irc.InvProofs.Defs
 
-namespace Irc
+namespace Irc.Reg
 
 /-! ### `Map` as a list: insert / erase -/
 namespace Map
 variable {α : Type}
 
-theorem insert_of_not_mem (k : Str) (v : α) (m : Map α) (h : k ∉ keys m) :
-    insert k v m = m ++ [(k, v)] := by
+theorem insert_of_not_mem (k : Str) (v : α) (m : Map α) (h : k ∉ Map.keys m) :
+    Map.insert k v m = m ++ [(k, v)] := by
   induction m with
   | nil => rfl
   | cons p m ih =>
     obtain ⟨k', v'⟩ := p
-    simp only [keys, List.map_cons, List.mem_cons, not_or] at h
+    simp only [Map.keys, List.map_cons, List.mem_cons, not_or] at h
     have hne : ¬ k' = k := fun e => h.1 e.symm
-    simp only [insert, hne, ↓reduceIte, List.cons_append, List.cons.injEq, true_and]
-    exact ih (by simpa [keys] using h.2)
+    simp only [Map.insert, hne, ↓reduceIte, List.cons_append, List.cons.injEq, true_and]
+    exact ih (by simpa [Map.keys] using h.2)
 
-theorem not_mem_keys_of_lookup_none (k : Str) (m : Map α) (h : lookup k m = none) : k ∉ keys m := by
+theorem not_mem_keys_of_lookup_none (k : Str) (m : Map α) (h : Map.lookup k m = none) : k ∉ Map.keys m := by
   intro hk
-  obtain ⟨v, hv⟩ := (mem_keys_iff k m).mp hk
+  obtain ⟨v, hv⟩ := (Map.mem_keys_iff k m).mp hk
   rw [h] at hv; cases hv
 
-theorem insert_of_lookup_none (k : Str) (v : α) (m : Map α) (h : lookup k m = none) :
-    insert k v m = m ++ [(k, v)] :=
-  insert_of_not_mem k v m (not_mem_keys_of_lookup_none k m h)
+theorem insert_of_lookup_none (k : Str) (v : α) (m : Map α) (h : Map.lookup k m = none) :
+    Map.insert k v m = m ++ [(k, v)] :=
+  Map.insert_of_not_mem k v m (Map.not_mem_keys_of_lookup_none k m h)
 
-theorem keys_insert_of_lookup_none (k : Str) (v : α) (m : Map α) (h : lookup k m = none) :
-    keys (insert k v m) = keys m ++ [k] := by
-  rw [insert_of_lookup_none k v m h]; simp [keys]
+theorem keys_insert_of_lookup_none (k : Str) (v : α) (m : Map α) (h : Map.lookup k m = none) :
+    Map.keys (Map.insert k v m) = Map.keys m ++ [k] := by
+  rw [Map.insert_of_lookup_none k v m h]; simp [Map.keys]
 
-theorem keys_insert_of_mem (k : Str) (v : α) (m : Map α) (h : k ∈ keys m) :
-    keys (insert k v m) = keys m := by
+theorem keys_insert_of_mem (k : Str) (v : α) (m : Map α) (h : k ∈ Map.keys m) :
+    Map.keys (Map.insert k v m) = Map.keys m := by
   induction m with
-  | nil => simp [keys] at h
+  | nil => simp [Map.keys] at h
   | cons p m ih =>
     obtain ⟨k', v'⟩ := p
-    simp only [insert]
+    simp only [Map.insert]
     split
-    · rename_i e; simp [keys, e]
+    · rename_i e; simp [Map.keys, e]
     · rename_i e
-      simp only [keys, List.map_cons, List.mem_cons] at h
-      have : k ∈ keys m := by
+      simp only [Map.keys, List.map_cons, List.mem_cons] at h
+      have : k ∈ Map.keys m := by
         rcases h with h | h
         · exact absurd h.symm e
-        · simpa [keys] using h
+        · simpa [Map.keys] using h
       have := ih this
-      simp only [keys] at this
-      simp [keys, this]
+      simp only [Map.keys] at this
+      simp [Map.keys, this]
 
-theorem insert_ne_nil (k : Str) (v : α) (m : Map α) : insert k v m ≠ [] := by
+theorem insert_ne_nil (k : Str) (v : α) (m : Map α) : Map.insert k v m ≠ [] := by
   cases m with
-  | nil => simp [insert]
-  | cons p m => obtain ⟨k', v'⟩ := p; simp only [insert]; split <;> simp
+  | nil => simp [Map.insert]
+  | cons p m => obtain ⟨k', v'⟩ := p; simp only [Map.insert]; split <;> simp
 
-theorem erase_of_not_mem (k : Str) (m : Map α) (h : k ∉ keys m) : erase k m = m := by
+theorem erase_of_not_mem (k : Str) (m : Map α) (h : k ∉ Map.keys m) : Map.erase k m = m := by
   induction m with
   | nil => rfl
   | cons p m ih =>
     obtain ⟨k', v'⟩ := p
-    simp only [keys, List.map_cons, List.mem_cons, not_or] at h
+    simp only [Map.keys, List.map_cons, List.mem_cons, not_or] at h
     have hne : ¬ k' = k := fun e => h.1 e.symm
-    simp only [erase, hne, ↓reduceIte, List.cons.injEq, true_and]
-    exact ih (by simpa [keys] using h.2)
+    simp only [Map.erase, hne, ↓reduceIte, List.cons.injEq, true_and]
+    exact ih (by simpa [Map.keys] using h.2)
 
-/-- with unique keys, `erase` removes exactly the one entry that `lookup` finds -/
-theorem erase_split (k : Str) (v : α) (m : Map α) (hnd : (keys m).Nodup) (h : lookup k m = some v) :
-    ∃ l1 l2, m = l1 ++ (k, v) :: l2 ∧ erase k m = l1 ++ l2 := by
+/-- with unique Map.keys, `Map.erase` removes exactly the one entry that `Map.lookup` finds -/
+theorem erase_split (k : Str) (v : α) (m : Map α) (hnd : (Map.keys m).Nodup) (h : Map.lookup k m = some v) :
+    ∃ l1 l2, m = l1 ++ (k, v) :: l2 ∧ Map.erase k m = l1 ++ l2 := by
   induction m with
-  | nil => simp [lookup] at h
+  | nil => simp [Map.lookup] at h
   | cons p m ih =>
     obtain ⟨k', v'⟩ := p
-    simp only [keys, List.map_cons, List.nodup_cons] at hnd
+    simp only [Map.keys, List.map_cons, List.nodup_cons] at hnd
     by_cases e : k' = k
     · subst e
-      simp only [lookup, ↓reduceIte, Option.some.injEq] at h
+      simp only [Map.lookup, ↓reduceIte, Option.some.injEq] at h
       subst h
       refine ⟨[], m, rfl, ?_⟩
-      simp only [erase, ↓reduceIte, List.nil_append]
-      exact erase_of_not_mem k' m (by simpa [keys] using hnd.1)
-    · simp only [lookup, e, ↓reduceIte] at h
-      obtain ⟨l1, l2, h1, h2⟩ := ih (by simpa [keys] using hnd.2) h
+      simp only [Map.erase, ↓reduceIte, List.nil_append]
+      exact Map.erase_of_not_mem k' m (by simpa [Map.keys] using hnd.1)
+    · simp only [Map.lookup, e, ↓reduceIte] at h
+      obtain ⟨l1, l2, h1, h2⟩ := ih (by simpa [Map.keys] using hnd.2) h
       refine ⟨(k', v') :: l1, l2, by rw [h1]; rfl, ?_⟩
-      simp only [erase, e, ↓reduceIte, h2, List.cons_append]
+      simp only [Map.erase, e, ↓reduceIte, h2, List.cons_append]
 
-theorem keys_erase_nodup (k : Str) (m : Map α) (hnd : (keys m).Nodup) : (keys (erase k m)).Nodup := by
-  rw [keys_erase]; exact hnd.filter _
+theorem keys_erase_nodup (k : Str) (m : Map α) (hnd : (Map.keys m).Nodup) : (Map.keys (Map.erase k m)).Nodup := by
+  rw [Map.keys_erase]; exact hnd.filter _
 
-theorem not_mem_keys_erase (k k' : Str) (m : Map α) (h : k ∉ keys m) : k ∉ keys (erase k' m) := by
-  rw [keys_erase]; intro hm; exact h (List.mem_filter.mp hm).1
+theorem not_mem_keys_erase (k k' : Str) (m : Map α) (h : k ∉ Map.keys m) : k ∉ Map.keys (Map.erase k' m) := by
+  rw [Map.keys_erase]; intro hm; exact h (List.mem_filter.mp hm).1
 
-/-- re-keying one entry `old ↦ v` to `new ↦ v'` (`new` fresh): the lookup function -/
+/-- re-keying one entry `old ↦ v` to `new ↦ v'` (`new` fresh): the Map.lookup function -/
 theorem lookup_rekey (old new n : Str) (v' : α) (m : Map α) :
-    lookup n (insert new v' (erase old m)) =
-      if new = n then some v' else if old = n then none else lookup n m := by
-  rw [lookup_insert]
+    Map.lookup n (Map.insert new v' (Map.erase old m)) =
+      if new = n then some v' else if old = n then none else Map.lookup n m := by
+  rw [Map.lookup_insert]
   split
   · rfl
-  · rw [lookup_erase]
+  · rw [Map.lookup_erase]
 
-/-- re-keying keeps the keys unique -/
-theorem keys_rekey_nodup (old new : Str) (v' : α) (m : Map α) (hnd : (keys m).Nodup)
-    (hnew : lookup new m = none) : (keys (insert new v' (erase old m))).Nodup := by
-  have h1 : new ∉ keys (erase old m) :=
-    not_mem_keys_erase new old m (not_mem_keys_of_lookup_none new m hnew)
-  rw [insert_of_not_mem _ _ _ h1]
-  have : keys (erase old m ++ [(new, v')]) = keys (erase old m) ++ [new] := by simp [keys]
+/-- re-keying keeps the Map.keys unique -/
+theorem keys_rekey_nodup (old new : Str) (v' : α) (m : Map α) (hnd : (Map.keys m).Nodup)
+    (hnew : Map.lookup new m = none) : (Map.keys (Map.insert new v' (Map.erase old m))).Nodup := by
+  have h1 : new ∉ Map.keys (Map.erase old m) :=
+    Map.not_mem_keys_erase new old m (Map.not_mem_keys_of_lookup_none new m hnew)
+  rw [Map.insert_of_not_mem _ _ _ h1]
+  have : Map.keys (Map.erase old m ++ [(new, v')]) = Map.keys (Map.erase old m) ++ [new] := by simp [Map.keys]
   rw [this]
   apply List.nodup_append.mpr
-  refine ⟨keys_erase_nodup old m hnd, by simp, ?_⟩
+  refine ⟨Map.keys_erase_nodup old m hnd, by simp, ?_⟩
   intro a ha b hb
   simp only [List.mem_singleton] at hb
   subst hb
@@ -122,33 +123,33 @@ theorem keys_rekey_nodup (old new : Str) (v' : α) (m : Map α) (hnd : (keys m).
 /-- re-keying one entry keeps every count that looks only at a value-property shared by the old and
     the new value -/
 theorem filter_rekey_length (old new : Str) (v v' : α) (m : Map α) (p : Str × α → Bool)
-    (hnd : (keys m).Nodup) (hold : lookup old m = some v) (hnew : lookup new m = none)
+    (hnd : (Map.keys m).Nodup) (hold : Map.lookup old m = some v) (hnew : Map.lookup new m = none)
     (hp : p (new, v') = p (old, v)) :
-    ((insert new v' (erase old m)).filter p).length = (m.filter p).length := by
-  have h1 : new ∉ keys (erase old m) :=
-    not_mem_keys_erase new old m (not_mem_keys_of_lookup_none new m hnew)
-  rw [insert_of_not_mem _ _ _ h1]
-  obtain ⟨l1, l2, e1, e2⟩ := erase_split old v m hnd hold
+    ((Map.insert new v' (Map.erase old m)).filter p).length = (m.filter p).length := by
+  have h1 : new ∉ Map.keys (Map.erase old m) :=
+    Map.not_mem_keys_erase new old m (Map.not_mem_keys_of_lookup_none new m hnew)
+  rw [Map.insert_of_not_mem _ _ _ h1]
+  obtain ⟨l1, l2, e1, e2⟩ := Map.erase_split old v m hnd hold
   rw [e2, e1]
   simp only [List.filter_append, List.length_append, List.filter_cons, List.filter_nil, hp]
   split <;> simp <;> omega
 
 theorem length_rekey (old new : Str) (v v' : α) (m : Map α)
-    (hnd : (keys m).Nodup) (hold : lookup old m = some v) (hnew : lookup new m = none) :
-    (insert new v' (erase old m)).length = m.length := by
-  have h1 : new ∉ keys (erase old m) :=
-    not_mem_keys_erase new old m (not_mem_keys_of_lookup_none new m hnew)
-  rw [insert_of_not_mem _ _ _ h1]
-  obtain ⟨l1, l2, e1, e2⟩ := erase_split old v m hnd hold
+    (hnd : (Map.keys m).Nodup) (hold : Map.lookup old m = some v) (hnew : Map.lookup new m = none) :
+    (Map.insert new v' (Map.erase old m)).length = m.length := by
+  have h1 : new ∉ Map.keys (Map.erase old m) :=
+    Map.not_mem_keys_erase new old m (Map.not_mem_keys_of_lookup_none new m hnew)
+  rw [Map.insert_of_not_mem _ _ _ h1]
+  obtain ⟨l1, l2, e1, e2⟩ := Map.erase_split old v m hnd hold
   rw [e2, e1]
   simp only [List.length_append, List.length_cons, List.length_nil]
   omega
 
 end Map
 
-end Irc
+end Irc.Reg
 
-namespace Irc
+namespace Irc.Reg
 
 /-! ### connections: lookup and replacement -/
 
@@ -368,9 +369,9 @@ theorem invCore_setConn_same {w : World} (h : InvCore w) {cn cn' : Conn} (hm : c
     subst this
     exact hk hk2
 
-end Irc
+end Irc.Reg
 
-namespace Irc
+namespace Irc.Reg
 
 /-! ### `World.addUser` projections -/
 section
@@ -407,4 +408,540 @@ theorem World.addUser_maxUsers :
     simp only [Bool.false_eq_true, ↓reduceIte] <;> split <;> simp only [] at * <;> omega
 end
 
-end Irc
+end Irc.Reg
+
+namespace Irc.Reg
+
+/-! ### registering a new user -/
+
+/-- A world `w'` that differs from an `InvCore` world `w` by: the record of the unauthenticated
+    connection `cn` replaced by an authenticated `cn'` with nick `nick` (free in `w`), and a fresh
+    user `nick ↦ u` owned by it, counters bumped accordingly — satisfies `InvCore`. -/
+theorem invCore_register {w w' : World} (h : InvCore w) {cn cn' : Conn} {nick : Str} {u : User}
+    (hm : cn ∈ w.conns) (hu : cn.authenticated = false) (hfree : Map.lookup nick w.users = none)
+    (hid : cn'.id = cn.id) (ha' : cn'.authenticated = true) (hn' : cn'.nick = some nick)
+    (huo : u.owner = cn.id) (huc : u.channels = []) (huk : u.killed = false)
+    (e_conns : w'.conns = (w.setConn cn').conns)
+    (e_users : w'.users = Map.insert nick u w.users)
+    (e_chans : w'.channels = w.channels)
+    (e_wall : w'.wallops = if u.modes.wallops then KSet.insert nick w.wallops else w.wallops)
+    (e_inv : w'.invisibleCount = w.invisibleCount + (if u.modes.invisible then 1 else 0))
+    (e_op : w'.operatorsCount = w.operatorsCount + (if u.modes.isLocalOper then 1 else 0))
+    (e_max : w'.users.length ≤ w'.maxUsers)
+    (e_cc : w'.connsCount = w.connsCount)
+    (e_p : w'.panicked = none) : InvCore w' := by
+  have hmem := mem_setConn (w := w) hm hid
+  have e_users' : w'.users = w.users ++ [(nick, u)] := by
+    rw [e_users, Map.insert_of_lookup_none _ _ _ hfree]
+  have hlk : ∀ n, Map.lookup n w'.users = if nick = n then some u else Map.lookup n w.users := by
+    intro n; rw [e_users, Map.lookup_insert]
+  have hlk_old : ∀ n v, Map.lookup n w.users = some v → Map.lookup n w'.users = some v := by
+    intro n v hv
+    rw [hlk]
+    split
+    · rename_i e; subst e; rw [hfree] at hv; cases hv
+    · exact hv
+  -- a connection that owns an old user is not `cn`
+  have hother : ∀ n v, Map.lookup n w.users = some v → ∀ cn2, cn2 ∈ w.conns → cn2.id = v.owner →
+      cn2 ∈ w'.conns := by
+    intro n v hv cn2 h2 hid2
+    rw [e_conns]
+    exact (hmem cn2).mpr (Or.inr ⟨h2, by rw [hid2]; exact no_user_of_unauth h hm hu hv⟩)
+  refine
+    { noPanic := e_p, usersNodup := ?_, chansNodup := by rw [e_chans]; exact h.chansNodup,
+      connsNodup := ?_, membersNodup := by rw [e_chans]; exact h.membersNodup,
+      userChansNodup := ?_, authOwns := ?_, userOwned := ?_, memberSym := ?_, memberIsUser := ?_,
+      rankMirror := by rw [e_chans]; exact h.rankMirror,
+      noEmptyAdHoc := by rw [e_chans]; exact h.noEmptyAdHoc,
+      invisibleCount := ?_, operatorsCount := ?_, wallopsSet := ?_, maxUsers := e_max,
+      resources := ?_, slots := ?_, killedFlagged := ?_ }
+  · -- usersNodup
+    rw [e_users, Map.keys_insert_of_lookup_none _ _ _ hfree]
+    apply List.nodup_append.mpr
+    refine ⟨h.usersNodup, by simp, ?_⟩
+    intro a ha b hb
+    simp only [List.mem_singleton] at hb
+    subst hb
+    intro e; subst e
+    exact Map.not_mem_keys_of_lookup_none _ _ hfree ha
+  · -- connsNodup
+    rw [e_conns]
+    have := setConn_conns_ids w cn'
+    unfold SameConnIds at this
+    rw [this]; exact h.connsNodup
+  · -- userChansNodup
+    intro n v hv
+    rw [hlk] at hv
+    split at hv
+    · cases hv; rw [huc]; exact List.nodup_nil
+    · exact h.userChansNodup n v hv
+  · -- authOwns
+    intro a ha haa
+    rw [e_conns] at ha
+    rcases (hmem a).mp ha with rfl | ⟨ha, _⟩
+    · exact ⟨nick, u, hn', by rw [hlk]; simp, by rw [huo, hid]⟩
+    · obtain ⟨n, v, h1, h2, h3⟩ := h.authOwns a ha haa
+      exact ⟨n, v, h1, hlk_old n v h2, h3⟩
+  · -- userOwned
+    intro n v hv
+    rw [hlk] at hv
+    split at hv
+    · rename_i e; subst e; cases hv
+      exact ⟨cn', by rw [e_conns]; exact (hmem cn').mpr (Or.inl rfl), by rw [hid, huo], ha', hn'⟩
+    · obtain ⟨cn2, h2, hid2, ha2, hn2⟩ := h.userOwned n v hv
+      exact ⟨cn2, hother n v hv cn2 h2 hid2, hid2, ha2, hn2⟩
+  · -- memberSym
+    intro n v ch hv
+    rw [hlk] at hv
+    rw [e_chans]
+    split at hv
+    · rename_i e; subst e; cases hv
+      rw [huc]
+      constructor
+      · intro hf; simp [KSet.mem] at hf
+      · rintro ⟨C, hC, hc⟩
+        have := h.memberIsUser ch C nick hC hc
+        rw [Map.contains_iff] at this
+        obtain ⟨v, hv⟩ := this
+        rw [hfree] at hv; cases hv
+    · exact h.memberSym n v ch hv
+  · -- memberIsUser
+    intro ch C n hC hc
+    rw [e_chans] at hC
+    have := h.memberIsUser ch C n hC hc
+    rw [Map.contains_iff] at this ⊢
+    obtain ⟨v, hv⟩ := this
+    exact ⟨v, hlk_old n v hv⟩
+  · -- invisibleCount
+    rw [e_inv, e_users', h.invisibleCount]
+    simp only [List.filter_append, List.length_append, List.filter_cons, List.filter_nil]
+    split <;> rfl
+  · -- operatorsCount
+    rw [e_op, e_users', h.operatorsCount]
+    simp only [List.filter_append, List.length_append, List.filter_cons, List.filter_nil]
+    split <;> rfl
+  · -- wallopsSet
+    intro n
+    rw [e_wall, hlk]
+    by_cases e : nick = n
+    · subst e
+      simp only [↓reduceIte, Option.some.injEq, exists_eq_left']
+      by_cases hw : u.modes.wallops = true
+      · simp [hw, KSet.mem_insert]
+      · simp only [hw, Bool.false_eq_true, ↓reduceIte, iff_false]
+        intro hf
+        obtain ⟨v, hv, _⟩ := (h.wallopsSet nick).mp hf
+        rw [hfree] at hv; cases hv
+    · simp only [e, ↓reduceIte]
+      rw [← h.wallopsSet n]
+      split
+      · have : ¬ n = nick := fun e' => e e'.symm
+        simp [KSet.mem_insert, this]
+      · exact Iff.rfl
+  · -- resources
+    intro a ha haf
+    rw [e_conns] at ha
+    rcases (hmem a).mp ha with rfl | ⟨ha, _⟩
+    · rw [ha'] at haf; cases haf
+    · exact h.resources a ha haf
+  · -- slots
+    rw [e_cc, e_conns, setConn_conns_length]; exact h.slots
+  · -- killedFlagged
+    intro n v hv hk
+    rw [hlk] at hv
+    split at hv
+    · cases hv; rw [huk] at hk; cases hk
+    · obtain ⟨cn2, h2, hid2, hk2⟩ := h.killedFlagged n v hv hk
+      exact ⟨cn2, hother n v hv cn2 h2 hid2, hid2, hk2⟩
+
+end Irc.Reg
+
+namespace Irc.Reg
+
+/-! ### renaming: rank lists, one channel, all channels of the user -/
+
+theorem mem_renameIn (old new n : Str) (s : KSet) :
+    KSet.mem n (renameIn old new s) =
+      if KSet.mem old s then (decide (n = new) || (!decide (n = old) && KSet.mem n s))
+      else KSet.mem n s := by
+  unfold renameIn
+  split
+  · rw [KSet.mem_insert, KSet.mem_erase]
+  · rfl
+
+/-- a key set that mirrors a value-property of a map still mirrors it after re-keying one entry in
+    both (used for the five rank lists of a channel and for `wallops`) -/
+theorem renameIn_mirror {α : Type} {m : Map α} {s : KSet} {f : α → Bool} {old new : Str} {v v' : α}
+    (hm : ∀ n, KSet.mem n s = true ↔ ∃ a, Map.lookup n m = some a ∧ f a = true)
+    (hold : Map.lookup old m = some v) (hnew : Map.lookup new m = none) (hf : f v' = f v) :
+    ∀ n, KSet.mem n (renameIn old new s) = true ↔
+      ∃ a, Map.lookup n (Map.insert new v' (Map.erase old m)) = some a ∧ f a = true := by
+  intro n
+  have hne : old ≠ new := by intro e; rw [e, hnew] at hold; cases hold
+  have hold_s : KSet.mem old s = true ↔ f v = true := by
+    rw [hm old, hold]; simp
+  have hnew_s : KSet.mem new s = false := by
+    cases hx : KSet.mem new s with
+    | false => rfl
+    | true => obtain ⟨a, ha, _⟩ := (hm new).mp hx; rw [hnew] at ha; cases ha
+  rw [mem_renameIn, Map.lookup_rekey]
+  by_cases e1 : new = n
+  · subst e1
+    simp only [↓reduceIte, decide_true, Bool.true_or, Option.some.injEq, exists_eq_left', hf]
+    by_cases hs : KSet.mem old s = true
+    · simp only [hs, ↓reduceIte, true_iff]; exact hold_s.mp hs
+    · simp only [hs, Bool.false_eq_true, ↓reduceIte, hnew_s, false_iff]
+      intro hfv; exact hs (hold_s.mpr hfv)
+  · have e1' : ¬ n = new := fun e => e1 e.symm
+    simp only [e1, e1', ↓reduceIte, decide_false, Bool.false_or]
+    by_cases e2 : old = n
+    · subst e2
+      simp only [↓reduceIte, decide_true, Bool.not_true, Bool.false_and, reduceCtorEq, false_and,
+        exists_false, iff_false]
+      split
+      · simp
+      · assumption
+    · have e2' : ¬ n = old := fun e => e2 e.symm
+      simp only [e2, e2', ↓reduceIte, decide_false, Bool.not_false, Bool.true_and, ite_self]
+      exact hm n
+
+theorem renameUser_of_lookup {C : Channel} {old new : Str} {chum : ChanUserModes}
+    (h : Map.lookup old C.users = some chum) :
+    C.renameUser old new = some { C with
+      users := Map.insert new chum (Map.erase old C.users)
+      modes := { C.modes with operators := renameIn old new C.modes.operators
+                              halfOperators := renameIn old new C.modes.halfOperators
+                              voices := renameIn old new C.modes.voices
+                              founders := renameIn old new C.modes.founders
+                              protecteds := renameIn old new C.modes.protecteds } } := by
+  unfold Channel.renameUser; rw [h]
+
+/-- what `renameUser` returns -/
+theorem renameUser_some {C C' : Channel} {old new : Str} (h : C.renameUser old new = some C') :
+    ∃ chum, Map.lookup old C.users = some chum ∧
+      C'.users = Map.insert new chum (Map.erase old C.users) ∧
+      C'.preconfigured = C.preconfigured := by
+  cases hl : Map.lookup old C.users with
+  | none => unfold Channel.renameUser at h; rw [hl] at h; cases h
+  | some chum =>
+    rw [renameUser_of_lookup hl] at h
+    cases h
+    exact ⟨chum, rfl, rfl, rfl⟩
+
+/-- own copy of: the rank lists still mirror the member flags after `renameUser` to a fresh nick -/
+theorem rankMirror_renameUser {C C' : Channel} {old new : Str} (hr : RankMirror C)
+    (h : C.renameUser old new = some C') (hnew : Map.lookup new C.users = none) : RankMirror C' := by
+  cases hl : Map.lookup old C.users with
+  | none => unfold Channel.renameUser at h; rw [hl] at h; cases h
+  | some chum =>
+    rw [renameUser_of_lookup hl] at h
+    cases h
+    exact
+      { founders := renameIn_mirror (f := (·.founder)) hr.founders hl hnew rfl
+        protecteds := renameIn_mirror (f := (·.prot)) hr.protecteds hl hnew rfl
+        operators := renameIn_mirror (f := (·.operator)) hr.operators hl hnew rfl
+        halfOperators := renameIn_mirror (f := (·.halfOper)) hr.halfOperators hl hnew rfl
+        voices := renameIn_mirror (f := (·.voice)) hr.voices hl hnew rfl }
+
+/-- `renameInChannels` over a duplicate-free list of channels in each of which the rename succeeds:
+    only `channels` changes, the keys stay, and exactly the listed channels are renamed. -/
+theorem renameInChannels_spec (old new : Str) (chs : List Str) (w : World) (hnd : chs.Nodup)
+    (hok : ∀ ch, ch ∈ chs → ∃ C C', Map.lookup ch w.channels = some C ∧ C.renameUser old new = some C') :
+    ∃ chans', renameInChannels old new chs w = { w with channels := chans' } ∧
+      Map.keys chans' = Map.keys w.channels ∧
+      ∀ ch, Map.lookup ch chans' =
+        if ch ∈ chs then (Map.lookup ch w.channels).bind (·.renameUser old new)
+        else Map.lookup ch w.channels := by
+  induction chs generalizing w with
+  | nil => exact ⟨w.channels, rfl, rfl, fun ch => by simp⟩
+  | cons a rest ih =>
+    obtain ⟨C, C', hC, hC'⟩ := hok a (List.mem_cons_self ..)
+    have hnd' := List.nodup_cons.mp hnd
+    have hstep : renameInChannels old new (a :: rest) w =
+        renameInChannels old new rest { w with channels := Map.insert a C' w.channels } := by
+      unfold renameInChannels
+      simp only [List.foldl_cons, hC, hC']
+    have hok' : ∀ ch, ch ∈ rest → ∃ D D',
+        Map.lookup ch ({ w with channels := Map.insert a C' w.channels } : World).channels = some D ∧
+        D.renameUser old new = some D' := by
+      intro ch hch
+      obtain ⟨D, D', hD, hD'⟩ := hok ch (List.mem_cons_of_mem _ hch)
+      have hne : a ≠ ch := fun e => hnd'.1 (e ▸ hch)
+      exact ⟨D, D', by simp only []; rw [Map.lookup_insert_ne _ _ _ _ hne]; exact hD, hD'⟩
+    obtain ⟨chans', h1, h2, h3⟩ := ih _ hnd'.2 hok'
+    refine ⟨chans', by rw [hstep, h1], ?_, ?_⟩
+    · rw [h2]
+      exact Map.keys_insert_of_mem a C' w.channels ((Map.mem_keys_iff a _).mpr ⟨C, hC⟩)
+    · intro ch
+      rw [h3 ch]
+      simp only [Map.lookup_insert, List.mem_cons]
+      by_cases e : a = ch
+      · subst e
+        simp only [hnd'.1, ↓reduceIte, true_or, hC, Option.bind_some, hC']
+      · have e' : ¬ ch = a := fun x => e x.symm
+        simp only [e, e', ↓reduceIte, false_or]
+
+end Irc.Reg
+
+namespace Irc.Reg
+
+/-! ### the world after a rename -/
+
+/-- A world `w'` that differs from an `InvCore` world `w` by the rename `old → new` (`new` free) of
+    the user of the authenticated connection `cn`: users / member maps / rank lists / `wallops`
+    re-keyed, the connection's nick updated — satisfies `InvCore`. -/
+theorem invCore_rename {w w' : World} (h : InvCore w) {cn cn' : Conn} {old new : Str}
+    {user user' : User}
+    (hm : cn ∈ w.conns) (ha : cn.authenticated = true) (hcn : cn.nick = some old)
+    (hold : Map.lookup old w.users = some user) (hnew : Map.lookup new w.users = none)
+    (hid : cn'.id = cn.id) (ha' : cn'.authenticated = true) (hn' : cn'.nick = some new)
+    (hkb : cn'.killedBy = cn.killedBy) (hq : cn'.quit = cn.quit)
+    (hu_ch : user'.channels = user.channels) (hu_modes : user'.modes = user.modes)
+    (hu_owner : user'.owner = user.owner) (hu_killed : user'.killed = user.killed)
+    (e_conns : w'.conns = (w.setConn cn').conns)
+    (e_users : w'.users = Map.insert new user' (Map.erase old w.users))
+    (e_keys : Map.keys w'.channels = Map.keys w.channels)
+    (e_chans : ∀ ch, Map.lookup ch w'.channels =
+        if KSet.mem ch user.channels = true then (Map.lookup ch w.channels).bind (·.renameUser old new)
+        else Map.lookup ch w.channels)
+    (e_wall : w'.wallops = renameIn old new w.wallops)
+    (e_inv : w'.invisibleCount = w.invisibleCount)
+    (e_op : w'.operatorsCount = w.operatorsCount)
+    (e_max : w'.maxUsers = w.maxUsers)
+    (e_cc : w'.connsCount = w.connsCount)
+    (e_p : w'.panicked = none) : InvCore w' := by
+  have hmem := mem_setConn (w := w) hm hid
+  have hne : old ≠ new := by intro e; rw [e, hnew] at hold; cases hold
+  have howner : user.owner = cn.id := by
+    obtain ⟨n, u, h1, h2, h3⟩ := h.authOwns cn hm ha
+    rw [hcn] at h1; cases h1; rw [hold] at h2; cases h2; exact h3
+  have hlk : ∀ n, Map.lookup n w'.users =
+      if new = n then some user' else if old = n then none else Map.lookup n w.users := by
+    intro n; rw [e_users, Map.lookup_rekey]
+  have hlk_other : ∀ n, n ≠ old → n ≠ new → Map.lookup n w'.users = Map.lookup n w.users := by
+    intro n h1 h2
+    rw [hlk, if_neg (fun e => h2 e.symm), if_neg (fun e => h1 e.symm)]
+  -- `new` is not a member of any channel of `w`
+  have hnew_ch : ∀ ch C, Map.lookup ch w.channels = some C → Map.lookup new C.users = none := by
+    intro ch C hC
+    cases hx : Map.lookup new C.users with
+    | none => rfl
+    | some m =>
+      have := h.memberIsUser ch C new hC ((Map.contains_iff _ _).mpr ⟨m, hx⟩)
+      obtain ⟨v, hv⟩ := (Map.contains_iff _ _).mp this
+      rw [hnew] at hv; cases hv
+  -- the shape of every channel of `w'`
+  have hch : ∀ ch C', Map.lookup ch w'.channels = some C' →
+      ∃ C, Map.lookup ch w.channels = some C ∧ C'.preconfigured = C.preconfigured ∧
+        Map.lookup new C.users = none ∧
+        ((KSet.mem ch user.channels = true ∧ C.renameUser old new = some C' ∧
+            ∃ chum, Map.lookup old C.users = some chum ∧
+              C'.users = Map.insert new chum (Map.erase old C.users)) ∨
+         (KSet.mem ch user.channels = false ∧ C' = C ∧ Map.lookup old C.users = none)) := by
+    intro ch C' hC'
+    rw [e_chans] at hC'
+    by_cases hmc : KSet.mem ch user.channels = true
+    · rw [if_pos hmc] at hC'
+      cases hC : Map.lookup ch w.channels with
+      | none => rw [hC] at hC'; cases hC'
+      | some C =>
+        rw [hC, Option.bind_some] at hC'
+        obtain ⟨chum, hc1, hc2, hc3⟩ := renameUser_some hC'
+        exact ⟨C, rfl, hc3, hnew_ch ch C hC, Or.inl ⟨hmc, hC', chum, hc1, hc2⟩⟩
+    · rw [if_neg hmc] at hC'
+      refine ⟨C', hC', rfl, hnew_ch ch C' hC', Or.inr ⟨by simpa using hmc, rfl, ?_⟩⟩
+      cases hx : Map.lookup old C'.users with
+      | none => rfl
+      | some m =>
+        exact absurd ((h.memberSym old user ch hold).mpr
+          ⟨C', hC', (Map.contains_iff _ _).mpr ⟨m, hx⟩⟩) hmc
+  -- every channel of `w` has a counterpart in `w'`
+  have hch' : ∀ ch C, Map.lookup ch w.channels = some C → ∃ C', Map.lookup ch w'.channels = some C' := by
+    intro ch C hC
+    have : ch ∈ Map.keys w'.channels := by rw [e_keys]; exact (Map.mem_keys_iff _ _).mpr ⟨C, hC⟩
+    exact (Map.mem_keys_iff _ _).mp this
+  -- membership of the other nicks is unchanged
+  have hmemb : ∀ ch n, n ≠ old → n ≠ new →
+      ((∃ C', Map.lookup ch w'.channels = some C' ∧ Map.contains n C'.users = true) ↔
+       (∃ C, Map.lookup ch w.channels = some C ∧ Map.contains n C.users = true)) := by
+    intro ch n h1 h2
+    constructor
+    · rintro ⟨C', hC', hc⟩
+      obtain ⟨C, hC, _, _, hcase⟩ := hch ch C' hC'
+      refine ⟨C, hC, ?_⟩
+      rcases hcase with ⟨_, _, chum, _, hu⟩ | ⟨_, rfl, _⟩
+      · unfold Map.contains at hc ⊢
+        rw [hu, Map.lookup_rekey, if_neg (fun e => h2 e.symm), if_neg (fun e => h1 e.symm)] at hc
+        exact hc
+      · exact hc
+    · rintro ⟨C, hC, hc⟩
+      obtain ⟨C', hC'⟩ := hch' ch C hC
+      obtain ⟨C2, hC2, _, _, hcase⟩ := hch ch C' hC'
+      rw [hC] at hC2; cases hC2
+      refine ⟨C', hC', ?_⟩
+      rcases hcase with ⟨_, _, chum, _, hu⟩ | ⟨_, rfl, _⟩
+      · unfold Map.contains at hc ⊢
+        rw [hu, Map.lookup_rekey, if_neg (fun e => h2 e.symm), if_neg (fun e => h1 e.symm)]
+        exact hc
+      · exact hc
+  have hmemb_new : ∀ ch, (∃ C', Map.lookup ch w'.channels = some C' ∧ Map.contains new C'.users = true) ↔
+      KSet.mem ch user.channels = true := by
+    intro ch
+    constructor
+    · rintro ⟨C', hC', hc⟩
+      obtain ⟨C, hC, _, hn, hcase⟩ := hch ch C' hC'
+      rcases hcase with ⟨hmc, _⟩ | ⟨_, rfl, _⟩
+      · exact hmc
+      · unfold Map.contains at hc; rw [hn] at hc; cases hc
+    · intro hmc
+      obtain ⟨C, hC, _⟩ := (h.memberSym old user ch hold).mp hmc
+      obtain ⟨C', hC'⟩ := hch' ch C hC
+      obtain ⟨C2, hC2, _, _, hcase⟩ := hch ch C' hC'
+      refine ⟨C', hC', ?_⟩
+      rcases hcase with ⟨_, _, chum, _, hu⟩ | ⟨hf, _⟩
+      · unfold Map.contains; rw [hu, Map.lookup_insert_eq]; rfl
+      · rw [hmc] at hf; cases hf
+  have hmemb_old : ∀ ch C', Map.lookup ch w'.channels = some C' → Map.lookup old C'.users = none := by
+    intro ch C' hC'
+    obtain ⟨C, hC, _, _, hcase⟩ := hch ch C' hC'
+    rcases hcase with ⟨_, _, chum, _, hu⟩ | ⟨_, rfl, ho⟩
+    · rw [hu, Map.lookup_rekey, if_neg (fun e => hne e.symm), if_pos rfl]
+    · exact ho
+  -- connections other than `cn` are still there
+  have hother : ∀ cn2, cn2 ∈ w.conns → cn2.id ≠ cn.id → cn2 ∈ w'.conns := by
+    intro cn2 h2 hne2
+    rw [e_conns]; exact (hmem cn2).mpr (Or.inr ⟨h2, hne2⟩)
+  have hcn'_mem : cn' ∈ w'.conns := by rw [e_conns]; exact (hmem cn').mpr (Or.inl rfl)
+  refine
+    { noPanic := e_p, usersNodup := ?_, chansNodup := by rw [e_keys]; exact h.chansNodup,
+      connsNodup := ?_, membersNodup := ?_, userChansNodup := ?_, authOwns := ?_, userOwned := ?_,
+      memberSym := ?_, memberIsUser := ?_, rankMirror := ?_, noEmptyAdHoc := ?_,
+      invisibleCount := ?_, operatorsCount := ?_, wallopsSet := ?_, maxUsers := ?_,
+      resources := ?_, slots := ?_, killedFlagged := ?_ }
+  · -- usersNodup
+    rw [e_users]; exact Map.keys_rekey_nodup old new user' w.users h.usersNodup hnew
+  · -- connsNodup
+    rw [e_conns]
+    have := setConn_conns_ids w cn'
+    unfold SameConnIds at this
+    rw [this]; exact h.connsNodup
+  · -- membersNodup
+    intro ch C' hC'
+    obtain ⟨C, hC, _, hn, hcase⟩ := hch ch C' hC'
+    rcases hcase with ⟨_, _, chum, _, hu⟩ | ⟨_, rfl, _⟩
+    · rw [hu]; exact Map.keys_rekey_nodup old new chum C.users (h.membersNodup ch C hC) hn
+    · exact h.membersNodup ch _ hC
+  · -- userChansNodup
+    intro n v hv
+    rw [hlk] at hv
+    split at hv
+    · cases hv; rw [hu_ch]; exact h.userChansNodup old user hold
+    · split at hv
+      · cases hv
+      · exact h.userChansNodup n v hv
+  · -- authOwns
+    intro a haa haut
+    rw [e_conns] at haa
+    rcases (hmem a).mp haa with rfl | ⟨haa, hane⟩
+    · exact ⟨new, user', hn', by rw [hlk, if_pos rfl], by rw [hu_owner, howner, hid]⟩
+    · obtain ⟨n, u, h1, h2, h3⟩ := h.authOwns a haa haut
+      have hn1 : n ≠ old := by
+        intro e; subst e; rw [hold] at h2; cases h2; exact hane (by rw [← h3, howner])
+      have hn2 : n ≠ new := by intro e; subst e; rw [hnew] at h2; cases h2
+      exact ⟨n, u, h1, by rw [hlk_other n hn1 hn2]; exact h2, h3⟩
+  · -- userOwned
+    intro n v hv
+    rw [hlk] at hv
+    split at hv
+    · rename_i e; subst e; cases hv
+      exact ⟨cn', hcn'_mem, by rw [hid, hu_owner, howner], ha', hn'⟩
+    · split at hv
+      · cases hv
+      · rename_i e1 e2
+        obtain ⟨cn2, h2, hid2, ha2, hn2⟩ := h.userOwned n v hv
+        refine ⟨cn2, hother cn2 h2 ?_, hid2, ha2, hn2⟩
+        intro e
+        have : cn2 = cn := conn_eq_of_id_eq h.connsNodup h2 hm e
+        subst this
+        rw [hcn] at hn2; cases hn2; exact e2 rfl
+  · -- memberSym
+    intro n v ch hv
+    rw [hlk] at hv
+    split at hv
+    · rename_i e; subst e; cases hv
+      rw [hu_ch]; exact (hmemb_new ch).symm
+    · split at hv
+      · cases hv
+      · rename_i e1 e2
+        rw [hmemb ch n (fun e => e2 e.symm) (fun e => e1 e.symm)]
+        exact h.memberSym n v ch hv
+  · -- memberIsUser
+    intro ch C' n hC' hc
+    rw [Map.contains_iff]
+    by_cases e1 : n = new
+    · subst e1; exact ⟨user', by rw [hlk, if_pos rfl]⟩
+    · by_cases e2 : n = old
+      · subst e2
+        unfold Map.contains at hc; rw [hmemb_old ch C' hC'] at hc; cases hc
+      · obtain ⟨C, hC, hcc⟩ := (hmemb ch n e2 e1).mp ⟨C', hC', hc⟩
+        have := h.memberIsUser ch C n hC hcc
+        rw [Map.contains_iff] at this
+        obtain ⟨v, hv⟩ := this
+        exact ⟨v, by rw [hlk_other n e2 e1]; exact hv⟩
+  · -- rankMirror
+    intro ch C' hC'
+    obtain ⟨C, hC, _, hn, hcase⟩ := hch ch C' hC'
+    rcases hcase with ⟨_, hren, _⟩ | ⟨_, rfl, _⟩
+    · exact rankMirror_renameUser (h.rankMirror ch C hC) hren hn
+    · exact h.rankMirror ch _ hC
+  · -- noEmptyAdHoc
+    intro ch C' hC' hempty
+    obtain ⟨C, hC, hpre, _, hcase⟩ := hch ch C' hC'
+    rcases hcase with ⟨_, _, chum, _, hu⟩ | ⟨_, rfl, _⟩
+    · rw [hu] at hempty; exact absurd hempty (Map.insert_ne_nil _ _ _)
+    · exact h.noEmptyAdHoc ch _ hC hempty
+  · -- invisibleCount
+    rw [e_inv, e_users, h.invisibleCount]
+    exact (Map.filter_rekey_length old new user user' w.users _ h.usersNodup hold hnew
+      (by simp only [hu_modes])).symm
+  · -- operatorsCount
+    rw [e_op, e_users, h.operatorsCount]
+    exact (Map.filter_rekey_length old new user user' w.users _ h.usersNodup hold hnew
+      (by simp only [hu_modes])).symm
+  · -- wallopsSet
+    rw [e_wall, e_users]
+    exact renameIn_mirror (f := fun u => u.modes.wallops) h.wallopsSet hold hnew
+      (by show user'.modes.wallops = user.modes.wallops; rw [hu_modes])
+  · -- maxUsers
+    rw [e_max, e_users, Map.length_rekey old new user user' w.users h.usersNodup hold hnew]
+    exact h.maxUsers
+  · -- resources
+    intro a haa haf
+    rw [e_conns] at haa
+    rcases (hmem a).mp haa with rfl | ⟨haa, _⟩
+    · rw [ha'] at haf; cases haf
+    · exact h.resources a haa haf
+  · -- slots
+    rw [e_cc, e_conns, setConn_conns_length]; exact h.slots
+  · -- killedFlagged
+    intro n v hv hk
+    rw [hlk] at hv
+    split at hv
+    · cases hv
+      rw [hu_killed] at hk
+      obtain ⟨cn2, h2, hid2, hk2⟩ := h.killedFlagged old user hold hk
+      have : cn2 = cn := conn_eq_of_id_eq h.connsNodup h2 hm (by rw [hid2, howner])
+      subst this
+      exact ⟨cn', hcn'_mem, by rw [hid, hu_owner, howner], by rw [hkb, hq]; exact hk2⟩
+    · split at hv
+      · cases hv
+      · rename_i e1 e2
+        obtain ⟨cn2, h2, hid2, hk2⟩ := h.killedFlagged n v hv hk
+        refine ⟨cn2, hother cn2 h2 ?_, hid2, hk2⟩
+        intro e
+        obtain ⟨cn3, h3, hid3, _, hn3⟩ := h.userOwned n v hv
+        have : cn3 = cn := conn_eq_of_id_eq h.connsNodup h3 hm (by rw [hid3, ← hid2, e])
+        subst this
+        rw [hcn] at hn3; cases hn3; exact e2 rfl
+
+end Irc.Reg
